@@ -454,6 +454,52 @@ def malformed_text_containers(report):
         core.cleanup(folder)
 
 
+def hostile_ods_documents(report):
+    """
+    Well-formed ODS documents with absurd numbers in them: repeat counts and blank counts of 10^18 and 10^20, text nested
+    in a thousand spans. Reading must give rows or a data error (under the address-space limit of this process).
+    """
+    import cutplace
+    from cutplace import errors, rowio
+    from harness import odslib
+    _limits()
+    folder = core.workdir("c10ods")
+    path = os.path.join(folder, "hostile.ods")
+    good = odslib.plain_sheet([["a", "b"], ["c", "d"]])
+    empty_first = odslib.plain_sheet([["", "b"], ["c", "d"]])
+
+    def nested(depth):
+        marked = odslib.content_xml([odslib.plain_sheet([["a", "MARK"], ["c", "d"]])])
+        return marked.replace("MARK", "<text:span>" * depth + "b" + "</text:span>" * depth)
+
+    cases = []
+    for count in ("1000000000000000000", "99999999999999999999", "2147483648", "4294967296"):
+        cases.append(("table:number-columns-repeated=%s on a cell with text" % count, odslib.content_xml([good], column_attribute=count)))
+        cases.append(("table:number-columns-repeated=%s on an empty cell" % count, odslib.content_xml([empty_first], column_attribute=count)))
+        blanks = [{"rep": 1, "cells": [{"rep": 1, "paras": [[{"k": "s", "cs": [], "n": int(count), "sub": []}]]}]}]
+        cases.append(("text:s with text:c=%s" % count, odslib.content_xml([blanks])))
+    for depth in (600, 1200, 5000):
+        cases.append(("cell text nested in %d text:span elements" % depth, nested(depth)))
+    cid = cutplace.Cid()
+    cid.read("cid", [["D", "Format", "ods"], ["F", "a", "", "X"], ["F", "b", "", "X"]])
+    try:
+        for label, content in cases:
+            odslib.write_ods(path, content)
+            for name, read in (("rowio.ods_rows", lambda: [len(row) for row in rowio.ods_rows(path)]),
+                               ("rows()", lambda: [1 for _ in cutplace.rows(cid, path, on_error="yield")])):
+                report.replayed += 1
+                try:
+                    read()
+                except errors.DataError:
+                    pass
+                except BaseException as error:  # noqa
+                    report.violation("c10", {"container": "ods", "hostile": label}, "rows or DataError", None,
+                                     "ODS document with %s: %s lets escape %s: %s" % (label, name, type(error).__name__, str(error)[:150]))
+                    break
+    finally:
+        core.cleanup(folder)
+
+
 def native_excel_cells(report):
     """
     Cells a workbook can hold that have no text of their own: date serials outside the calendar (negative, the ambiguous
@@ -584,6 +630,7 @@ def run(tier, report):
     corrupted_containers(report, tier)
     native_excel_cells(report)
     malformed_text_containers(report)
+    hostile_ods_documents(report)
     report.notes["hostile_spreadsheet_cells"] = "%d hostile data cells were also stored in real .xlsx / .ods files and read through " \
                                                "cutplace.rows (both modes) and the command line" % len(
         [1 for vec, _ in jobs if vec["fmt"] in ("excel", "ods") and any(t["where"] == "data" for t in vec["targets"])])
